@@ -226,7 +226,8 @@ def cases(tier, seed):
     conts = [[0.0, 0.0, 0.0], [0.03, 0.012, 0.018]] + ([[0.1, 0.0, 0.0], [0.0, 0.08, 0.0], [0.0, 0.0, 0.12]]
                                                         if tier == "thorough" else [])
     gs = [0.6, 0.8] + ([0.7, 1.0, 1.2] if tier == "thorough" else [])
-    pmaxs = [95.0, 100.0, 105.0, 600.0, 300]  # the last one is an int, like the default 14_000 + ([20.0, 20.5, 3000.0] if tier == "thorough" else [])  # max <= 10 would be an empty table
+    # maxima just above a multiple of 10 (100.5, 20.25) and an int (like the default 14_000); max <= 10 would be empty
+    pmaxs = [95.0, 100.0, 100.5, 20.25, 105.0, 600.0, 300] + ([20.0, 20.5, 2340.75, 3000.0] if tier == "thorough" else [])
     for g, cont, dry, pmax in itertools.product(gs, conts, ["dry gas", "wet gas"], pmaxs):
         out.append({"kind": "table", "g": g, "T": 210.4 if g < 0.7 else 330.75, "cont": cont, "dry": dry, "pmax": pmax})
     for g, cont, dry in itertools.product([0.57, 0.65, 0.8, 1.0, 1.2], conts, ["dry gas", "wet gas"]):
